@@ -1841,3 +1841,62 @@ B("r11-leap-flag-overridden", ["C12"], ["R11"],
    "    if month_of_year is not None and month_of_year > 2:\n"
    "        is_leap_year = False\n"
    "    return _iter_months_days("))
+
+
+# ===================================================== round-6 rules =======
+_ORD_LOOP = ("    iter_num_days = 0\n"
+             "    for iter_month, iter_day in iter_months_days(year):\n"
+             "        iter_num_days += 1\n"
+             "        if iter_num_days == day_of_year:\n"
+             "            return year, iter_month, iter_day\n"
+             "    raise ValueError(\"Bad ordinal date: %s-%03d\" % (year, day_of_year))")
+_ORD_CLOSED = ("    if get_is_leap_year(year):\n"
+               "        days_in_months = CALENDAR.DAYS_IN_MONTHS_LEAP\n"
+               "    else:\n"
+               "        days_in_months = CALENDAR.DAYS_IN_MONTHS\n"
+               "    days_left = day_of_year\n"
+               "    for iter_month, days_in_month in enumerate(days_in_months, start=1):\n"
+               "        if days_left %s days_in_month:\n"
+               "            return year, iter_month, days_left\n"
+               "        days_left -= days_in_month\n"
+               "    raise ValueError(\"Bad ordinal date: %%s-%%03d\" %% (year, day_of_year))")
+B("r65-month-peeling-nonstrict", ["C03"], ["R65"],
+  ("data", _ORD_LOOP, _ORD_CLOSED % "<"), canary=True)
+K("r65-month-peeling-strict",
+  ("data", _ORD_LOOP, _ORD_CLOSED % "<="))
+B("r67-signed-offset-to-parser", ["C19"], ["R67"],
+  ("datetimeoper", "            if offset.startswith(\"-\") or offset.startswith(\"+\"):\n"
+                   "                sign = offset[0]\n"
+                   "                offset = offset[1:]\n",
+   "            if offset.startswith(\"+\"):\n"
+   "                offset = offset[1:]\n"), canary=True)
+B("r68-single-member-answers-none", ["C13"], ["R68"],
+  ("data", "        if self._get_is_in_bounds(timepoint):\n"
+           "            if self._duration is not None and self._duration.is_exact():",
+   "        if self._repetitions == 1:\n"
+   "            return None\n"
+   "        if self._get_is_in_bounds(timepoint):\n"
+   "            if self._duration is not None and self._duration.is_exact():"),
+  canary=True)
+B("r17-sub-week-form-added", ["C11"], ["R17"],
+  ("data", "    def __sub__(self, other):\n        return self + -1 * other",
+   "    def __sub__(self, other):\n"
+   "        if isinstance(other, Duration) and self.get_is_in_weeks() and \\\n"
+   "                other.get_is_in_weeks():\n"
+   "            new = self._copy()\n"
+   "            new._weeks += other._weeks\n"
+   "            return new\n"
+   "        return self + -1 * other"))
+B("r26-refusal-after-match", ["C10"], ["R26"],
+  ("parsers", "                result_map[key] = value * sign_factor\n"
+              "            return data.Duration(**result_map)",
+   "                result_map[key] = value * sign_factor\n"
+   "            if \"weeks\" in result_map and len(result_map) > 1:\n"
+   "                raise ISO8601SyntaxError(\"duration\", expression)\n"
+   "            return data.Duration(**result_map)"))
+B("r24-fraction-capped", ["C07"], ["R24"],
+  ("parser_spec", "r\",(?P<second_of_minute_decimal>[0-9]+)\"",
+   "r\",(?P<second_of_minute_decimal>[0-9]{1,6})\""))
+B("r12-borrow-wrong-direction", ["C04"], ["R12"],
+  ("data", "            if diff_second < 0:\n                diff_minute -= 1",
+   "            if diff_second < 0:\n                diff_minute += 1"))
